@@ -175,6 +175,18 @@ theorem mem_loopedIds_of_matched {cs : List Comp} {p x : CId} (h : x ∈ matched
 theorem mem_ids_of_loopedIds {cs : List Comp} {x : CId} (h : x ∈ loopedIds cs) : x ∈ ids cs :=
   (List.mem_filter.mp h).1
 
+/-- the edges of one graph construction, reference by reference (`refPreds`) -/
+theorem edgesOfM_eq (ds : List Doc) (cs : List Comp) :
+    edgesOfM ds cs = cs.flatMap fun c => (c.refs.filter fun r => !r.direct).flatMap fun r =>
+      ((refPreds ds cs c r).filter fun p => (ids cs).contains p).map fun p => (p, c.id) := rfl
+
+/-- membership in the edges of one graph construction -/
+theorem mem_edgesOfM {ds : List Doc} {cs : List Comp} {c : Comp} {r : Ref} {p : CId} (hc : c ∈ cs) (hr : r ∈ c.refs)
+    (hd : r.direct = false) (hp : p ∈ refPreds ds cs c r) (hid : p ∈ ids cs) : (p, c.id) ∈ edgesOfM ds cs := by
+  rw [edgesOfM_eq]
+  simp only [List.mem_flatMap, List.mem_filter, List.mem_map]
+  exact ⟨c, hc, r, ⟨hr, by simp [hd]⟩, p, ⟨hp, by simpa using hid⟩, rfl⟩
+
 theorem advances_append (a b : List Op) : advances (a ++ b) = advances a ++ advances b := by
   induction a with
   | nil => rfl
